@@ -34,7 +34,9 @@ Three layers, core Lean only:
 Abstractions (see checks/C16.json "trusted"): the capacity and backing-array identity of
 `List.items` are not modelled, because no operation of list.go hands out a sub-slice of it
 without copying (the correspondence check compares *every* live object after *every* step,
-so a change of that fact shows up as a mismatch); Go's hash maps are association lists
+so a change of that fact shows up as a mismatch; `Alias.lean` models the slice headers and
+backing arrays for eight list operations and `AliasProps.alias_refines_seq` proves that they show
+exactly these contents for all histories and growth policies); Go's hash maps are association lists
 observed only through sorted keys; floats are half-integers (`Val.flt t` = t/2) of small
 magnitude, for which `float64(int) == float` and float sums are exact; NaN, infinities,
 -0.0 and rounding are not modelled. Ints are exact at EVERY magnitude (`numKey`): sorting
@@ -137,6 +139,332 @@ def resolveIntSlice (start stop : Option Val) (size : Nat) : SliceRes :=
       match sliceBounds st sp size with
       | none => .err .slice
       | some (a, b) => .ok a.toNat b.toNat
+
+/-! #### `ResolveIntSlice` and `(*List).Insert` as the source has them (regenerated on every run)
+
+The two definitions below are hand copies of what `extract/c16.go` translates from
+object/list.go; `Ties.lean` proves them equal (by `rfl`) to the regenerated definitions, and
+`Lemmas.lean` (`resolveIntSlice_eq_go`, `insert_eq_act`) proves for ALL inputs that the
+compact models the machine runs (`resolveIntSlice`, `Impl.insert`) compute the same. -/
+
+/-- result of the translated `ResolveIntSlice`: the two int64 bounds, or the error class -/
+inductive SliceResI where
+  | ok (start stop : Int)
+  | err (c : ErrC)
+  deriving DecidableEq, Repr
+
+/-- `x != nil` for a slice bound -/
+def notNil (x : Option Val) : Bool := x.isSome
+/-- `x.(*Int)`: the Int object behind a bound, if it is one -/
+def boundInt (x : Option Val) : Option Int :=
+  match x with
+  | some (.int i) => some i
+  | _ => none
+/-- the `ok` of `v, ok := x.(*Int)` -/
+def isOk (o : Option Int) : Bool := o.isSome
+/-- `v.value` -/
+def intValue (o : Option Int) : Int := o.getD 0
+
+/-- hand copy of the translation of object/list.go `ResolveIntSlice` (`Ties.resolveIntSlice_tie`) -/
+def resolveIntSliceGo (sStart : Option Val) (sStop : Option Val) (size : Int) : SliceResI :=
+  let start : Int := 0
+  let stop : Int := 0
+  if (notNil sStart) then
+    let startObj := (boundInt sStart)
+    let ok := (isOk startObj)
+    if (!ok) then
+      .err .type
+    else
+      let start := (intValue startObj)
+      if (notNil sStop) then
+        let stopObj := (boundInt sStop)
+        let ok := (isOk stopObj)
+        if (!ok) then
+          .err .type
+        else
+          let stop := (intValue stopObj)
+          if (decide (start < 0)) then
+            let start := (size + start)
+            if (decide (start < 0)) then
+              .err .slice
+            else
+              if (decide (stop < 0)) then
+                let stop := (size + stop)
+                if (decide (stop < 0)) then
+                  .err .slice
+                else
+                  if (decide (start > stop)) then
+                    .err .slice
+                  else
+                    if (decide (start > (size - 1))) then
+                      .err .slice
+                    else
+                      if (decide (stop > size)) then
+                        .err .slice
+                      else
+                        .ok start stop
+              else
+                if (decide (start > stop)) then
+                  .err .slice
+                else
+                  if (decide (start > (size - 1))) then
+                    .err .slice
+                  else
+                    if (decide (stop > size)) then
+                      .err .slice
+                    else
+                      .ok start stop
+          else
+            if (decide (stop < 0)) then
+              let stop := (size + stop)
+              if (decide (stop < 0)) then
+                .err .slice
+              else
+                if (decide (start > stop)) then
+                  .err .slice
+                else
+                  if (decide (start > (size - 1))) then
+                    .err .slice
+                  else
+                    if (decide (stop > size)) then
+                      .err .slice
+                    else
+                      .ok start stop
+            else
+              if (decide (start > stop)) then
+                .err .slice
+              else
+                if (decide (start > (size - 1))) then
+                  .err .slice
+                else
+                  if (decide (stop > size)) then
+                    .err .slice
+                  else
+                    .ok start stop
+      else
+        let stop := size
+        if (decide (start < 0)) then
+          let start := (size + start)
+          if (decide (start < 0)) then
+            .err .slice
+          else
+            if (decide (stop < 0)) then
+              let stop := (size + stop)
+              if (decide (stop < 0)) then
+                .err .slice
+              else
+                if (decide (start > stop)) then
+                  .err .slice
+                else
+                  if (decide (start > (size - 1))) then
+                    .err .slice
+                  else
+                    if (decide (stop > size)) then
+                      .err .slice
+                    else
+                      .ok start stop
+            else
+              if (decide (start > stop)) then
+                .err .slice
+              else
+                if (decide (start > (size - 1))) then
+                  .err .slice
+                else
+                  if (decide (stop > size)) then
+                    .err .slice
+                  else
+                    .ok start stop
+        else
+          if (decide (stop < 0)) then
+            let stop := (size + stop)
+            if (decide (stop < 0)) then
+              .err .slice
+            else
+              if (decide (start > stop)) then
+                .err .slice
+              else
+                if (decide (start > (size - 1))) then
+                  .err .slice
+                else
+                  if (decide (stop > size)) then
+                    .err .slice
+                  else
+                    .ok start stop
+          else
+            if (decide (start > stop)) then
+              .err .slice
+            else
+              if (decide (start > (size - 1))) then
+                .err .slice
+              else
+                if (decide (stop > size)) then
+                  .err .slice
+                else
+                  .ok start stop
+  else
+    if (notNil sStop) then
+      let stopObj := (boundInt sStop)
+      let ok := (isOk stopObj)
+      if (!ok) then
+        .err .type
+      else
+        let stop := (intValue stopObj)
+        if (decide (start < 0)) then
+          let start := (size + start)
+          if (decide (start < 0)) then
+            .err .slice
+          else
+            if (decide (stop < 0)) then
+              let stop := (size + stop)
+              if (decide (stop < 0)) then
+                .err .slice
+              else
+                if (decide (start > stop)) then
+                  .err .slice
+                else
+                  if (decide (start > (size - 1))) then
+                    .err .slice
+                  else
+                    if (decide (stop > size)) then
+                      .err .slice
+                    else
+                      .ok start stop
+            else
+              if (decide (start > stop)) then
+                .err .slice
+              else
+                if (decide (start > (size - 1))) then
+                  .err .slice
+                else
+                  if (decide (stop > size)) then
+                    .err .slice
+                  else
+                    .ok start stop
+        else
+          if (decide (stop < 0)) then
+            let stop := (size + stop)
+            if (decide (stop < 0)) then
+              .err .slice
+            else
+              if (decide (start > stop)) then
+                .err .slice
+              else
+                if (decide (start > (size - 1))) then
+                  .err .slice
+                else
+                  if (decide (stop > size)) then
+                    .err .slice
+                  else
+                    .ok start stop
+          else
+            if (decide (start > stop)) then
+              .err .slice
+            else
+              if (decide (start > (size - 1))) then
+                .err .slice
+              else
+                if (decide (stop > size)) then
+                  .err .slice
+                else
+                  .ok start stop
+    else
+      let stop := size
+      if (decide (start < 0)) then
+        let start := (size + start)
+        if (decide (start < 0)) then
+          .err .slice
+        else
+          if (decide (stop < 0)) then
+            let stop := (size + stop)
+            if (decide (stop < 0)) then
+              .err .slice
+            else
+              if (decide (start > stop)) then
+                .err .slice
+              else
+                if (decide (start > (size - 1))) then
+                  .err .slice
+                else
+                  if (decide (stop > size)) then
+                    .err .slice
+                  else
+                    .ok start stop
+          else
+            if (decide (start > stop)) then
+              .err .slice
+            else
+              if (decide (start > (size - 1))) then
+                .err .slice
+              else
+                if (decide (stop > size)) then
+                  .err .slice
+                else
+                  .ok start stop
+      else
+        if (decide (stop < 0)) then
+          let stop := (size + stop)
+          if (decide (stop < 0)) then
+            .err .slice
+          else
+            if (decide (start > stop)) then
+              .err .slice
+            else
+              if (decide (start > (size - 1))) then
+                .err .slice
+              else
+                if (decide (stop > size)) then
+                  .err .slice
+                else
+                  .ok start stop
+        else
+          if (decide (start > stop)) then
+            .err .slice
+          else
+            if (decide (start > (size - 1))) then
+              .err .slice
+            else
+              if (decide (stop > size)) then
+                .err .slice
+              else
+                .ok start stop
+
+/-- which of its three slice operations `(*List).Insert` performs -/
+inductive InsAct where
+  | prepend              -- ls.items = append([]Object{obj}, ls.items...)
+  | append               -- ls.items = append(ls.items, obj)
+  | shift (index : Int)  -- append nil; copy(items[index+1:], items[index:]); items[index] = obj
+  deriving DecidableEq, Repr
+
+/-- hand copy of the translation of object/list.go `(*List).Insert` (`Ties.insertAct_tie`);
+    `n` is `int64(len(ls.items))` -/
+def insertAct (index : Int) (n : Int) : InsAct :=
+  if (decide (index < 0)) then
+    let index := (n + index)
+    if (decide (index < 0)) then
+      let index := 0
+      if (index == 0) then
+        .prepend
+      else
+        if (decide (index ≥ n)) then
+          .append
+        else
+          (.shift index)
+    else
+      if (index == 0) then
+        .prepend
+      else
+        if (decide (index ≥ n)) then
+          .append
+        else
+          (.shift index)
+  else
+    if (index == 0) then
+      .prepend
+    else
+      if (decide (index ≥ n)) then
+        .append
+      else
+        (.shift index)
 
 /-- 64-bit wrap-around of Go's int64 addition -/
 def wrap64 (x : Int) : Int := (x + 9223372036854775808) % 18446744073709551616 - 9223372036854775808
